@@ -629,6 +629,15 @@ def rule_E(ck, units):
             # inside the loop over the tree parameter
             pd = f.params[0]
             loops = [n for n in f.nodes.values() if n['k'] == 'rfor' and is_ref_to(n['range'], pd)]
+            if not loops:
+                # delegation to another overload: the tree and every accepted-name set must be passed on unchanged
+                dele = [c for c in f.calls() if c.get('f') == 'amgcl::check_params' and c.get('fd') != f.id and c.get('a') and is_ref_to(c['a'][0], pd)]
+                if len(dele) == 1:
+                    passed = {unwrap(a)['d'] for a in dele[0]['a'] if unwrap(a) is not None and unwrap(a)['k'] == 'ref'}
+                    missing = [f.decl(d)['n'] for d in f.params[1:] if d not in passed]
+                    ck.ob('E.unknown-reported', key, f.where(dele[0]), not missing,
+                          '' if not missing else 'delegates to another overload without the accepted-name set(s) %s' % missing, trivial=True)
+                    continue
             if len(loops) != 1:
                 ck.ob('E.unknown-reported', key, f.where(), False, 'expected exactly one loop over the property tree, found %d' % len(loops))
                 continue
